@@ -176,12 +176,30 @@ CLAIMS['C17'] = dict(category='proof', ref='5 Core F, 8 C17',
     text="Lean small-step model of writeMessage under wmu (any number of writers, all schedules): the consumer-visible stream is always the concatenation of whole "
          "packets in commit order, each writer's packets in its own order, nothing lost or duplicated (C17_packets_atomic, C17_packets_whole, C17_packets_complete, "
          "C17_critical_section); without the mutex two writers reserve the same bytes (C17_unlocked_counterexample); no deadlock inside the critical section and a "
-         "termination measure (C17_progress, C17_quiescent_delivered, C17_progress_measure). On the sequential broker model: the stream to a subscriber is the "
+         "termination measure (C17_progress, C17_quiescent_delivered, C17_progress_measure). THE FINITE RING AND THE WRAP BRANCH are modelled too "
+         "(Model/WriteWrap.lean: ring of 2^k cells with producer/consumer cursors, one consumer taking out any amount, the shared scratch buffer svc.outtmp - only "
+         "ever grown, stale contents kept -, WriteWait blocking while pseq+l-size > cseq and refusing l > size, Encode into the ring + WriteCommit or growth test + "
+         "Encode into the scratch buffer + Write(outtmp[0:n]) = waitForWriteSpace again + ringCopy around the ring end + cursor store; the copy IS the translated "
+         "service.ringCopy, C17_wrap_ringCopy_is_source). For every ring size 2^k, every initial scratch contents, every number of threads, packet lists of any "
+         "lengths and every schedule of thread and consumer steps: no producer step writes a cell holding an unread byte, at most size bytes are unread "
+         "(C17_wrap_safety); bytes observed ++ unread bytes on the ring = concatenation of the committed packets in commit order, so the observed stream is a prefix of "
+         "whole packets (C17_wrap_stream); per-thread order kept, nothing lost, a delivery fails exactly when its packet is longer than the ring (C17_wrap_order); "
+         "mutual exclusion and per-program-counter assertions (C17_wrap_critical_section); runs from different initial scratch buffers agree on stream, ring, "
+         "cursors, threads and log after every step (C17_wrap_scratch_irrelevant); closed counterexamples: Write(outtmp) instead of outtmp[0:n] emits stale bytes "
+         "when a small packet wraps after a larger one (C17_wrap_whole_scratch_counterexample), without wmu two wrapping deliveries share the scratch buffer and one "
+         "packet is sent twice, the other never (C17_wrap_unlocked_counterexample); progress under an explicit fairness hypothesis - every segment scheduling each "
+         "thread and a consumer step asking for >= 1 byte lowers the measure (size+1)*work + unread, so after (size+1)*8*#packets fair segments every packet of "
+         "length <= size is committed and every longer one refused (C17_wrap_progress, C17_wrap_eventually). The statement-level shape of writeMessage (Len before "
+         "Lock, deferred Unlock, WriteWait(l), if wrap; growth test with make([]byte, l), Encode(svc.outtmp[0:]), Write(svc.outtmp[0:n]); Encode(buf[0:]), "
+         "WriteCommit(n)) is regenerated from sendrecv.go on every check (extract/facts_wrap.go, fatal on unrecognised statements) and equated with the model's step "
+         "table, which is read off the model's steps on probe states (C17_wrap_shape_is_source). On the sequential broker model: the stream to a subscriber is the "
          "concatenation of per-event sends; a publisher's QoS 0/1 messages are delivered in publish order and QoS 2 hand-overs in exchange-opening order "
          "(C17_stream_per_event, C17_publisher_order, _precedes, C17_publisher_order_qos2, C17_qos2_fifo, C17_qos2_release_step). Tied by concurrent delivery runs "
          "on the real broker (2-8 unserialised publishers, packets wrapping a 16 KiB ring, strict reference parse, sequence numbers) and the broker correspondence. "
-         "PARTIAL: the ring's own wrap/blocking is Core D; that every committed packet is well-formed MQTT is C03; that no write bypasses wmu is C18; Len()-vs-Encode() "
-         "length mismatch (A2) belongs to C03.")
+         "REMAINS: real memory - a whole-packet copy is one model step (justified for the locked program by C17_wrap_safety: no concurrent reader of the cells written), "
+         "Go slices aliasing svc.outtmp are values; the ring's blocking primitives (condition variables, the gate cache, Close/EOF during a delivery) are C15/C14, "
+         "here WriteWait simply is not enabled while the ring is full; that every committed packet is well-formed MQTT and Encode writes Len() bytes is C03 "
+         "(Len()-vs-Encode() mismatch A2 belongs there); that no write bypasses wmu is C18.")
 
 CLAIMS['C16'] = dict(category='proof', ref='5 Core F, 8 C16',
     text="Lean 4 theorems (21), for ALL initial buffer states, traffic, schedules of thread steps and interleaved environment events (peer closes / stops "
